@@ -57,7 +57,7 @@ def adv_check(pid, tier, replay, plan):
         scenarios = rp["scenarios"]
     else:
         # 1. exhaustive model checking: Impl => Requirement within the bounds
-        for name, q, th in plan["mc"]:
+        for name, q, th in ([] if os.environ.get("VERIF_NO_MC") else plan["mc"]):
             ov = dict(q)
             if thorough:
                 ov.update(th)
@@ -102,6 +102,14 @@ def adv_check(pid, tier, replay, plan):
     outs = adv.run_scenarios(tmp, scenarios, pid)
     # 5. validate every recorded trace against the requirement spec
     viols, ntr, nlines, samples = adv.validate(tmp, outs, pid, ifis=plan.get("ifis", ("vf0",)))
+
+    # 5b. conformance of the recorded traces with the implementation-shaped model itself
+    conf = {"checked": 0, "deviations": [], "runs": []}
+    if plan.get("conformance", True) and not os.environ.get("VERIF_NO_CONFORMANCE"):
+        nconf, dev, cstats = adv.conformance(tmp, outs, pid, max_scen=int(os.environ.get("VERIF_CONF_MAX", 1500 if thorough else 60)))
+        conf = {"checked": nconf, "deviations": dev[:50], "n_deviations": len(dev), "runs": cstats}
+        for d in dev[:10]:
+            print("MODEL-DEVIATION property=%s scenario=%s (the trace is not a behaviour of Advertiser.tla; not a verdict)" % (pid, d))
 
     mine, others = [], []
     for v in viols:
@@ -160,6 +168,7 @@ def adv_check(pid, tier, replay, plan):
         "model_counterexamples": [r for r in mc_results if not r["ok"]],
         "violating_traces": len(reported), "known_finding_traces": len(known),
         "other_property_notes": len(others),
+        "conformance_with_Advertiser_tla": conf,
         "exhaustive": False,
     }
     LAST.clear()
